@@ -5,6 +5,7 @@
 // maps).  All data are small integers / dyadic rationals chosen so that every intermediate
 // value of the real code is exactly representable in double: the oracle is ==, evaluated
 // independently over the rationals.
+#include <algorithm>
 #include "C18_common.hpp"
 #include <amgcl/value_type/static_matrix.hpp>
 #include <amgcl/adapter/crs_tuple.hpp>
@@ -157,6 +158,13 @@ template <class M> static std::string compare_dense(const M &A, const Mat<Q> &wa
 }
 
 // one case: scalar CPR with block_size B, and the block valued CPR on the same matrix
+// the same matrix with the entries of every row stored in descending column order (a legal CRS matrix)
+template <class M> static std::shared_ptr<M> reversed_rows(const M &A) {
+    auto R = std::make_shared<M>(A);
+    for (size_t i = 0; i < R->nrows; ++i) { std::reverse(R->col + R->ptr[i], R->col + R->ptr[i + 1]); std::reverse(R->val + R->ptr[i], R->val + R->ptr[i + 1]); }
+    return R;
+}
+
 template <int B>
 static void cpr_case(int nb, uint64_t graph, int fill, int active_cells, const std::string &key) {
     typedef BlockTypes<B> BT;
@@ -262,6 +270,20 @@ static void cpr_case(int nb, uint64_t graph, int fill, int active_cells, const s
             if (std::memcmp(&x1[0], &x2[0], nb * sizeof(typename BT::BR))) vf::fail("cpr.block.partial_update.same_matrix", key, ctx); else vf::count("block_partial_update_same_matrix_checked");
         }
     }
+    // partial update with the unchanged matrix handed over with unsorted rows (row order is not part of the matrix)
+    {
+        auto Arev = reversed_rows(*A);
+        for (int upd = 0; upd < 2; ++upd) {
+            CprS C3(*A, ps);
+            std::vector<std::vector<double>> before;
+            for (int t = 0; t <= n; ++t) { amgcl::backend::numa_vector<double> rhs(rhs_vec(n, t)), x(n); C3.apply(rhs, x); before.push_back(std::vector<double>(&x[0], &x[0] + n)); }
+            C3.partial_update(*Arev, (bool)upd);
+            bool same_action = true;
+            for (int t = 0; t <= n; ++t) { amgcl::backend::numa_vector<double> rhs(rhs_vec(n, t)), x(n); C3.apply(rhs, x); if (std::memcmp(&x[0], before[t].data(), n * sizeof(double))) same_action = false; }
+            if (!same_action) vf::fail("cpr.partial_update.same_matrix_unsorted_rows", key, ctx + (vf::KS() << " update_transfer_ops=" << upd << " : action changed after a partial update with the same matrix stored with descending columns").str());
+            else vf::count("partial_update_unsorted_rows_checked");
+        }
+    }
     vf::nontrivial(vf::hstr(key));
 }
 
@@ -332,6 +354,14 @@ static void drs_case(int nb, uint64_t graph, int fill, int active_cells, const s
         bool same_action = true;
         for (int t = 0; t <= n; ++t) { amgcl::backend::numa_vector<double> rhs(rhs_vec(n, t)), x(n); C2.apply(rhs, x); if (std::memcmp(&x[0], before[t].data(), n * sizeof(double))) same_action = false; }
         if (!same_action) vf::fail("cpr_drs.scalar.partial_update.same_matrix", key, ctx + (vf::KS() << " update_transfer_ops=" << upd << " : action changed").str()); else vf::count("cpr_drs_scalar_partial_update_same_matrix_checked");
+        {
+            auto Arev = reversed_rows(*A);
+            C2.partial_update(*Arev, (bool)upd);
+            bool same2 = true;
+            for (int t = 0; t <= n; ++t) { amgcl::backend::numa_vector<double> rhs(rhs_vec(n, t)), x(n); C2.apply(rhs, x); if (std::memcmp(&x[0], before[t].data(), n * sizeof(double))) same2 = false; }
+            if (!same2) vf::fail("cpr_drs.scalar.partial_update.same_matrix_unsorted_rows", key, ctx + (vf::KS() << " update_transfer_ops=" << upd << " : action changed after a partial update with the same matrix stored with descending columns").str());
+            else vf::count("cpr_drs_partial_update_unsorted_rows_checked");
+        }
     }
     for (int upd = 0; upd < 2; ++upd) {
         fr::Result pr = fr::run([&](fr::Out &out) { DrsB C2(*Ab, pb); C2.partial_update(*Ab, (bool)upd); out << "ok"; }, 60.0);
